@@ -366,6 +366,8 @@ def resolveImports(sheet, target=None):
         target = css.CSSStyleSheet(
             href=sheet.href, media=sheet.media, title=sheet.title
         )
+        # an @import which is kept is loaded again by its new parent sheet
+        target._setFetcher(sheet._fetcher)
 
     for rule in sheet.cssRules:
         if rule.type == rule.CHARSET_RULE:
